@@ -110,6 +110,24 @@ def _exc_test(fn, atom, pol, vtxt, exc_tag, prog=None, depth=0):
     return False
 
 
+def _implies_exc(fn, atom, pol, vtxt, exc_tag, depth=0):
+    """`atom == pol` establishes that v IS an exception object (stores that follow are deliberate updates of it)"""
+    atom = fn.strip(atom)
+    nd = fn.nodes[atom]
+    if depth > 4:
+        return False
+    if nd["k"] == "un" and nd["o"] == "!":
+        return _implies_exc(fn, nd["c"][0], not pol, vtxt, exc_tag, depth + 1)
+    if nd["k"] == "bin" and nd["o"] in ("&&", "||"):
+        parts = [_implies_exc(fn, c, pol, vtxt, exc_tag, depth + 1) for c in nd["c"]]
+        return any(parts) if (nd["o"] == "&&") == pol else all(parts)
+    if nd["k"] == "bin" and nd["o"] in ("==", "!="):
+        for a, b in ((0, 1), (1, 0)):
+            if fn.txt(fn.strip(nd["c"][a])) == vtxt + "->tag" and fn.const_val(nd["c"][b]) == exc_tag:
+                return (nd["o"] == "==") == pol
+    return False
+
+
 def _is_pointer_test(fn, n, vtxt):
     t = fn.txt(fn.strip(n)).replace(" ", "")
     return t in ("((%s&3)==0)" % vtxt, "(%s&3)==0" % vtxt)
@@ -236,6 +254,8 @@ def _untested_store(fn, src, vid, vtxt, exc_tag, prog=None):
             if b.cond is not None and len(b.succs) == 2:
                 if _exc_test(fn, _decided_by(fn, b), k == 0, vtxt, exc_tag, prog):
                     continue
+                if _implies_exc(fn, _decided_by(fn, b), k == 0, vtxt, exc_tag):
+                    continue        # known to be an exception from here on: what is stored is stored into it on purpose
             st.append((s, 0))
     return None
 
